@@ -13,7 +13,7 @@
 (* constraint (their "Range" column is a recommendation).                  *)
 (*                                                                         *)
 (* The MANIFEST life-cycle: disk is absent, stored(c), torn(class of the   *)
-(* truncation point) or garbage(class); Save = validate, write MANIFEST.tmp*)
+(* truncation point) or garbage(class); Save = validate, write MANIFEST.tmp,*)
 (* rename; Load = read, parse, validate; Open = load, or create the default*)
 (* configuration if (and only if) there is no MANIFEST; the environment    *)
 (* may truncate the file, replace it by garbage or edit it while the       *)
@@ -23,8 +23,10 @@ EXTENDS Integers, Sequences, FiniteSets, TLC
 
 CONSTANTS MaxDiff,     \* a candidate differs from a base configuration in at most MaxDiff fields
           BaseNames,   \* which base configurations: subset of {"default", "edge", "top"}
-          PolSet,      \* what Validate may say about a +Inf ratio (see AcceptInf below): subset of BOOLEAN
-          AllowChoose  \* may the client switch to another candidate in the middle of a behaviour
+          PolSet,      \* what Validate may say about a +Inf ratio (see RatioOK below): subset of BOOLEAN
+          Acts         \* the calls / environment steps of this model: subset of AllActs ("choose": the client may switch
+                       \* to another base configuration in the middle of a behaviour)
+AllActs == {"choose", "validate", "save", "load", "open", "put", "close", "truncate", "garbage", "tamper"}
 
 \* -------------------------------------------------------------------------------- fields and classes
 IntC  == {"neg", "zero", "min", "typ", "big"}     \* -1 (or less), 0, 1, the default value, huge
@@ -79,10 +81,11 @@ Bases == {b \in {Default, Edge, Top} :
             \/ b = Edge /\ "edge" \in BaseNames
             \/ b = Top /\ "top" \in BaseNames}
 
+\* every (field, class) pair; Near(B, n): the configurations that differ from one in B in at most n fields
+FieldClass == UNION { {<<f, v>> : v \in Classes[f]} : f \in Fields }
 RECURSIVE Near(_, _)
 Near(B, n) == IF n = 0 THEN B
-              ELSE LET P == Near(B, n - 1)
-                   IN  P \cup UNION { {[d EXCEPT ![f] = v] : v \in Classes[f]} : d \in P, f \in Fields }
+              ELSE {[d EXCEPT ![p[1]] = p[2]] : d \in Near(B, n - 1), p \in FieldClass}
 Cands == Near(Bases, MaxDiff)
 
 \* -------------------------------------------------------------------------------- the documented constraints
@@ -151,13 +154,16 @@ NoOut == [a |-> "none"]
 
 Valid(c) == ValidateAlg(c, pol) = 0
 
-Init == /\ pol \in PolSet
-        /\ cand \in Cands
+\* the policy matters only if a +Inf ratio can occur in the behaviour
+HasInf(c) == c.CompactionRatio = "pinf"
+Init == /\ cand \in Cands
+        /\ pol \in PolSet
+        /\ HasInf(cand) \/ "choose" \in Acts \/ pol = (CHOOSE p \in PolSet : TRUE)
         /\ disk = Absent /\ tmp = NoTmp /\ data = FALSE /\ eng = Down /\ created = Default
         /\ pc = "idle" /\ out = NoOut
 
 \* -------------------------------------------------------------------------------- client calls
-Choose(c) == /\ AllowChoose /\ pc = "idle" /\ c # cand
+Choose(c) == /\ pc = "idle" /\ c # cand
              /\ cand' = c /\ out' = NoOut
              /\ UNCHANGED <<pol, disk, tmp, data, eng, created, pc>>
 
@@ -189,20 +195,24 @@ Load == /\ pc = "idle"
         /\ UNCHANGED <<pol, cand, disk, tmp, data, eng, created, pc>>
 
 \* engine.NewEngineFacade(dir): load; only "there is no MANIFEST" leads to the default configuration, which is
-\* then stored; every other failure to load makes opening fail and changes nothing
-Open == /\ pc = "idle" /\ ~eng.up
+\* then stored; every other failure to load makes opening fail and changes nothing on disk
+OpenBody(name) ==
         /\ LET r == LoadResult(disk) IN
              IF r.ok
                THEN /\ eng' = [up |-> TRUE, c |-> r.c]
-                    /\ out' = [a |-> "open", ok |-> TRUE, c |-> r.c]
+                    /\ out' = [a |-> name, ok |-> TRUE, c |-> r.c]
                     /\ UNCHANGED <<disk, created>>
              ELSE IF r.nf
                THEN /\ disk' = Stored(Default, "save") /\ created' = Default
                     /\ eng' = [up |-> TRUE, c |-> Default]
-                    /\ out' = [a |-> "open", ok |-> TRUE, c |-> Default]
-             ELSE /\ out' = [a |-> "open", ok |-> FALSE, c |-> Default]
-                  /\ UNCHANGED <<disk, created, eng>>
+                    /\ out' = [a |-> name, ok |-> TRUE, c |-> Default]
+             ELSE /\ out' = [a |-> name, ok |-> FALSE, c |-> Default]
+                  /\ eng' = Down
+                  /\ UNCHANGED <<disk, created>>
         /\ UNCHANGED <<pol, cand, tmp, data, pc>>
+Open == pc = "idle" /\ ~eng.up /\ OpenBody("open")
+\* Close followed by NewEngineFacade on the same directory
+Reopen == pc = "idle" /\ eng.up /\ OpenBody("reopen")
 
 Put == /\ pc = "idle" /\ eng.up
        /\ data' = TRUE /\ out' = [a |-> "put"]
@@ -225,11 +235,16 @@ Tamper(c) == /\ pc = "idle" /\ ~eng.up /\ Representable(c)
              /\ disk' = Stored(c, "env") /\ out' = [a |-> "tamper"]
              /\ UNCHANGED <<pol, cand, tmp, data, eng, created, pc>>
 
-Next == \/ \E c \in Cands : Choose(c)
-        \/ Validate \/ SaveBegin \/ SaveTmp \/ SaveRename \/ Load \/ Open \/ Put \/ Close
-        \/ \E cls \in TornC \cup {"complete"} : Truncate(cls)
-        \/ \E cls \in GarbC : Corrupt(cls)
-        \/ Tamper(cand) \/ Tamper(Default)
+Next == \/ "choose" \in Acts /\ \E c \in Bases : Choose(c)
+        \/ "validate" \in Acts /\ Validate
+        \/ "save" \in Acts /\ (SaveBegin \/ SaveTmp \/ SaveRename)
+        \/ "load" \in Acts /\ Load
+        \/ "open" \in Acts /\ (Open \/ Reopen)
+        \/ "put" \in Acts /\ Put
+        \/ "close" \in Acts /\ Close
+        \/ "truncate" \in Acts /\ \E cls \in TornC \cup {"complete"} : Truncate(cls)
+        \/ "garbage" \in Acts /\ \E cls \in GarbC : Corrupt(cls)
+        \/ "tamper" \in Acts /\ (Tamper(cand) \/ Tamper(Default))
 Spec == Init /\ [][Next]_vars
 
 \* -------------------------------------------------------------------------------- properties (C20)
@@ -259,11 +274,11 @@ RejectedSaveWritesNothing ==
 \* an unreadable or invalid stored configuration makes opening fail - no fall-back to the defaults;
 \* the defaults are used only where there is no MANIFEST, and then there is no data either
 BadManifestFailsOpen ==
-  [][(~eng.up /\ eng'.up) =>
+  [][(eng'.up /\ out'.a \in {"open", "reopen"} /\ out' # out) =>
         \/ disk.k = "absent" /\ ~data /\ eng'.c = Default /\ disk' = Stored(Default, "save")
         \/ disk.k = "stored" /\ Constraints(disk.c, pol) /\ eng'.c = disk.c /\ disk' = disk]_vars
 FailedOpenChangesNothing ==
-  [][(out'.a = "open" /\ ~out'.ok /\ out' # out) => (disk' = disk /\ eng' = eng /\ data' = data)]_vars
+  [][(out'.a \in {"open", "reopen"} /\ ~out'.ok /\ out' # out) => (disk' = disk /\ ~eng'.up /\ data' = data)]_vars
 NoDataWithoutManifest == data => disk.k # "absent"
 
 \* a running engine uses the stored configuration: the one the database was created / last saved with
